@@ -90,6 +90,11 @@ impl<K: EnrKey> EnrKey for Spy<K> {
             log_sign(msg, None);
             return Err(SigningError::verif_new("injected signing fault"));
         }
+        if FAIL.with(Cell::get) == 3 {
+            // a signer that panics (a bug in the caller's own key implementation): the caller catches the unwind
+            log_sign(msg, None);
+            panic!("injected signer panic");
+        }
         let mut r = self.0.sign_v4(msg);
         if FAIL.with(Cell::get) == 2 {
             // a signer that fails silently: Ok with one bit of the signature flipped
@@ -173,6 +178,10 @@ impl EnrKey for ToyKey {
         if FAIL.with(Cell::get) == 1 {
             log_sign(msg, None);
             return Err(SigningError::verif_new("injected signing fault"));
+        }
+        if FAIL.with(Cell::get) == 3 {
+            log_sign(msg, None);
+            panic!("injected signer panic");
         }
         let i = self.n.fetch_add(1, std::sync::atomic::Ordering::SeqCst);
         let pad = self.sched[i % self.sched.len()];
